@@ -148,6 +148,7 @@ func (b *prefixBatch) Put(key, value []byte) error {
 }
 
 func (b *prefixBatch) Write() error {
+	verifOnWrite("batch", []byte(b.prefix), b.size)
 	return b.db.Write(b.b, nil)
 }
 
